@@ -1130,3 +1130,27 @@ def scen_generate_uuid(ctx, M):
     ctx.check('C14-generate-version-4', d[14] == '4')
     ctx.goal('done')
     return ()
+
+
+def scen_mask_mixed(ctx, M):
+    """two secrets under the same key in two different renderings"""
+    su = M.su
+    p = ctx.p
+    key = p['key']
+    msg = 'start'
+    want = 'start'
+    for i, rn in enumerate(p['renderings']):
+        rname, before, mid, after, aclass = [r for r in SZ.RENDERINGS
+                                             if r[0] == rn][0]
+        s = ctx.str('v%d' % i, 1, SZ.ALPHABET[aclass] - frozenset(b'=-'))
+        a = after % {'key': key} if '%(key)s' in after else after
+        msg = cat(msg, ' ', before, key, mid, s, a, ' ;')
+        want = cat(want, ' ', before, key, mid, '***', a, ' ;')
+    out = su.mask_password(msg)
+    w1 = [('W1', any(r in ('json-dq', 'dict-sq', 'dict-u')
+                     for r in p['renderings']))]
+    ctx.check('C04-mixed-renderings-masked', out == want, unless=w1)
+    ctx.check('C04-mixed-idempotent', su.mask_password(out) == out,
+              unless=w1)
+    ctx.goal('masked')
+    return (out,)
